@@ -280,7 +280,8 @@ def xml_mutants(rng, doc, n):
         d = copy.deepcopy(doc)
         els = [e for e in d.iter() if isinstance(e.tag, str)]
         lv = [e for e in els if len(e) == 0]
-        op = rng.choice(('leaf', 'leaf', 'leaf', 'attr', 'delete', 'dup', 'unknown', 'nest', 'text_in_complex', 'rename', 'nil', 'reorder', 'empty'))
+        op = rng.choice(('leaf', 'leaf', 'leaf', 'attr', 'delete', 'dup', 'unknown', 'nest', 'text_in_complex', 'rename', 'nil', 'reorder', 'empty',
+                         'entity', 'entity', 'pi', 'fault_body', 'href'))
         try:
             if op == 'leaf' and lv:
                 rng.choice(lv).text = rng.choice(HOSTILE)
@@ -321,6 +322,38 @@ def xml_mutants(rng, doc, n):
                 for k in list(e):
                     e.remove(k)
                 e.text = None
+            elif op == 'entity':
+                # an (unresolved) internal entity reference among the children of a complex element, or as leaf text
+                e = rng.choice([x for x in els if len(x)] or els) if rng.random() < .7 else rng.choice(lv or els)
+                if rng.random() < .5 or not len(e):
+                    e.text = '@@ENT@@'
+                else:
+                    rng.choice(list(e)).tail = '@@ENT@@'
+                raw = etree.tostring(d, xml_declaration=False, encoding='UTF-8')
+                out.append(('mut:entity', b'<?xml version="1.0" encoding="UTF-8"?><!DOCTYPE r [<!ENTITY x "zz">]>' + raw.replace(b'@@ENT@@', b'&x;')))
+                continue
+            elif op == 'pi':
+                e = rng.choice(els)
+                e.insert(0, etree.ProcessingInstruction('vf', 'x'))
+                if rng.random() < .5:
+                    e.append(etree.Comment(' c '))
+            elif op == 'fault_body':
+                # a Fault where the message element should be (for SOAP: as the Body child)
+                tgt = d
+                for x in els:
+                    if etree.QName(x).localname == 'Body':
+                        tgt = x
+                ns = etree.QName(tgt).namespace if tgt is not d else None
+                for k in list(tgt):
+                    tgt.remove(k)
+                f = etree.SubElement(tgt, '{%s}Fault' % ns if ns else 'Fault')
+                etree.SubElement(f, 'faultcode').text = rng.choice(HOSTILE)
+                etree.SubElement(f, 'faultstring').text = rng.choice(HOSTILE)
+            elif op == 'href':
+                e = rng.choice(els)
+                e.set('href', rng.choice(('#nope', '#', 'nope', '#' + (e.get('id') or 'x'))))
+                if rng.random() < .5:
+                    rng.choice(els).set('id', 'x')
             out.append(('mut:' + op, etree.tostring(d, xml_declaration=True, encoding='UTF-8')))
         except Exception:
             continue
